@@ -148,10 +148,36 @@ func ExtractFieldMap(f *Func, in types.Object) *FieldMap {
 		return fm
 	}
 	fm.Lit = lit
-	add := func(fld *types.Var, e ast.Expr) {
-		p := tr.prov(e)
+	tr.out = outVar
+	// sizing expressions (make, nil, empty literal) carry no data: a later
+	// element-wise fill replaces them
+	isSizing := func(e ast.Expr) bool {
+		e = ast.Unparen(e)
+		if IsNilIdent(info, e) {
+			return true
+		}
+		switch x := e.(type) {
+		case *ast.CompositeLit:
+			return len(x.Elts) == 0
+		case *ast.CallExpr:
+			if b, ok := Callee(info, x).(*types.Builtin); ok && b.Name() == "make" {
+				return true
+			}
+		}
+		return false
+	}
+	addProv := func(fld *types.Var, e ast.Expr, p *fmProv) {
 		src := &FieldSrc{Out: fld, Expr: e, Fields: p.fieldList(), Steps: p.steps}
 		if old := fm.Entries[fld]; old != nil {
+			switch {
+			case len(src.Fields) == 0 && isSizing(e):
+				return
+			case len(old.Fields) == 0 && isSizing(old.Expr):
+				*old = *src
+				return
+			case len(old.Fields) == 1 && len(src.Fields) == 1 && old.Fields[0] == src.Fields[0] && fmStepsKey(old.Steps) == fmStepsKey(src.Steps):
+				return // the same fill written twice (e.g. in two branches)
+			}
 			fm.Problems = append(fm.Problems, "output field "+fld.Name()+" is set more than once")
 			seen := map[*types.Var]bool{}
 			for _, x := range old.Fields {
@@ -167,6 +193,7 @@ func ExtractFieldMap(f *Func, in types.Object) *FieldMap {
 		fm.Entries[fld] = src
 		fm.Order = append(fm.Order, fld)
 	}
+	add := func(fld *types.Var, e ast.Expr) { addProv(fld, e, tr.prov(e)) }
 	for _, el := range lit.Elts {
 		kv, ok := el.(*ast.KeyValueExpr)
 		if !ok {
@@ -207,9 +234,24 @@ func ExtractFieldMap(f *Func, in types.Object) *FieldMap {
 						}
 					}
 				}
+				// v.F[i] = … is an element fill
+				if ix, ok := f.Prog.Parent(f.File, y).(*ast.IndexExpr); ok && ix.X == ast.Expr(y) {
+					if as, ok := f.Prog.Parent(f.File, ix).(*ast.AssignStmt); ok {
+						for _, l := range as.Lhs {
+							if l == ast.Expr(ix) {
+								return true
+							}
+						}
+					}
+					return true // reading an element back
+				}
 				// reading a field back is harmless
 				if s2, ok := info.Selections[y]; ok && s2.Kind() == types.FieldVal {
-					if _, isCallFun := f.Prog.Parent(f.File, y).(*ast.CallExpr); !isCallFun {
+					call, isCall := f.Prog.Parent(f.File, y).(*ast.CallExpr)
+					if !isCall {
+						return true
+					}
+					if b, ok := Callee(info, call).(*types.Builtin); ok && (b.Name() == "append" || b.Name() == "len" || b.Name() == "cap") {
 						return true
 					}
 				}
@@ -218,20 +260,57 @@ func ExtractFieldMap(f *Func, in types.Object) *FieldMap {
 			return true
 		})
 	}
-	// v.F = expr completions
+	// completions: v.F = expr, v.F[i] = expr inside a range loop, v.F = append(v.F, expr)
 	if outVar != nil {
+		fieldOf := func(e ast.Expr) *types.Var {
+			sel, ok := ast.Unparen(e).(*ast.SelectorExpr)
+			if !ok || ObjOf(info, sel.X) != outVar {
+				return nil
+			}
+			if _, isIdent := ast.Unparen(sel.X).(*ast.Ident); !isIdent {
+				return nil
+			}
+			fld, _ := ObjOf(info, sel).(*types.Var)
+			if fld == nil || !fld.IsField() {
+				return nil
+			}
+			return fld
+		}
 		ast.Inspect(f.Body, func(x ast.Node) bool {
 			as, ok := x.(*ast.AssignStmt)
-			if !ok || len(as.Lhs) != len(as.Rhs) {
+			if !ok {
 				return true
 			}
+			rhsProv := func(i int) (*fmProv, ast.Expr) {
+				if len(as.Lhs) == len(as.Rhs) {
+					return tr.prov(as.Rhs[i]), as.Rhs[i]
+				}
+				if len(as.Rhs) == 1 {
+					if call, ok := ast.Unparen(as.Rhs[0]).(*ast.CallExpr); ok {
+						return tr.callProv(call, i), as.Rhs[0]
+					}
+				}
+				return nil, nil
+			}
 			for i, l := range as.Lhs {
-				sel, ok := ast.Unparen(l).(*ast.SelectorExpr)
-				if !ok || ObjOf(info, sel.X) != outVar {
+				l = ast.Unparen(l)
+				if fld := fieldOf(l); fld != nil {
+					if p, e := rhsProv(i); p != nil {
+						addProv(fld, e, p)
+					} else {
+						fm.Problems = append(fm.Problems, "output field "+fld.Name()+" is assigned from a multi-value expression")
+					}
 					continue
 				}
-				if fld, _ := ObjOf(info, sel).(*types.Var); fld != nil && fld.IsField() {
-					add(fld, as.Rhs[i])
+				if ix, ok := l.(*ast.IndexExpr); ok {
+					if fld := fieldOf(ix.X); fld != nil {
+						p, e := rhsProv(i)
+						if p == nil {
+							fm.Problems = append(fm.Problems, "an element of output field "+fld.Name()+" is assigned from a multi-value expression")
+							continue
+						}
+						addProv(fld, e, p.with(FieldStep{Kind: "store", Note: tr.storeShape(ix, as)}))
+					}
 				}
 			}
 			return true
@@ -314,6 +393,7 @@ func fmMergeProv(ps ...*fmProv) *fmProv {
 
 type fmTracer struct {
 	fm       *FieldMap
+	out      types.Object // the result variable (nil when the literal is returned directly)
 	info     *types.Info
 	memo     map[types.Object]*fmProv
 	busy     map[types.Object]bool
@@ -365,6 +445,9 @@ func (tr *fmTracer) prov(e ast.Expr) *fmProv {
 	switch x := e.(type) {
 	case *ast.SelectorExpr:
 		if sel, ok := info.Selections[x]; ok && sel.Kind() == types.FieldVal {
+			if id, isIdent := ast.Unparen(x.X).(*ast.Ident); isIdent && tr.out != nil && ObjOf(info, id) == tr.out {
+				return fmEmptyProv() // reading the result back (v.F = append(v.F, …))
+			}
 			base := tr.prov(x.X)
 			if base.whole && len(sel.Index()) == 1 {
 				if fld, ok := sel.Obj().(*types.Var); ok {
@@ -605,4 +688,12 @@ func StructFields(n *types.Named) []*types.Var {
 		out = append(out, st.Field(i))
 	}
 	return out
+}
+
+func fmStepsKey(steps []FieldStep) string {
+	k := ""
+	for _, s := range steps {
+		k += s.String() + "|" + s.Note + ";"
+	}
+	return k
 }
